@@ -84,6 +84,7 @@ FAMILIES = {
     "universe": {"module": "MC_Universe", "judge": "UniverseTrace"},
     "dispatch": {"module": "Dispatch", "judge": "DispatchTrace"},
     "pipeline": {"module": "MC_PipelineHist", "judge": "PipelineTrace", "by_history": True},
+    "genfile": {"module": "GenFile", "judge": "GenFileTrace"},
     "tracker": {"module": "MC_ImportTracker", "judge": "ImportTrackerTrace"},
     "comments": {"module": "Comments", "judge": "CommentsTrace"},
     "inflect": {"module": "Inflector", "judge": "InflectorTrace", "race": True},
@@ -231,7 +232,7 @@ def check_C15(ctx):
 
 def check_C03(ctx):
     t = ctx.tier
-    res = run_family(ctx, "tracker", "MC_ImportTracker", ["ImportTracker_gen_%s.cfg" % t], "ImportTrackerTrace",
+    res = run_family(ctx, "tracker", "MC_ImportTracker", ["ImportTracker_gen_%s.cfg" % t, "ImportTracker_gen_%s2.cfg" % t], "ImportTrackerTrace",
                      rand_n=4000 if ctx.quick() else 60000, a_cfgs=["ImportTracker_A.cfg"], shard=5000)
     fails = vlib.collect_failures(res["trace"], res["bad"], "tracker", only_prefix="C03")
     # pipeline side of C03 (import block of written files = referenced packages): judged by the genfile family
@@ -261,8 +262,36 @@ def check_C03(ctx):
 
 
 def genfile_family(ctx, only=None):
-    """Placeholder until the genfile family (C01) exists: contributes nothing."""
-    return {"fails": [], "lines": 0}
+    """The genfile family (C01 and the written-file side of C03): returns failures restricted to `only`."""
+    t = ctx.tier
+    res = run_family(ctx, "genfile", "GenFile", ["GenFile_gen_%s.cfg" % t, "GenFile_gen_%s2.cfg" % t], "GenFileTrace",
+                     rand_n=150 if ctx.quick() else 3000, a_cfgs=["GenFile_A.cfg"] if only == "C01" else [], shard=3000, exec_timeout=7200)
+    fails = vlib.collect_failures(res["trace"], res["bad"], "genfile", only_prefix=only)
+    return {"fails": fails, "lines": len(res["trace"]), "trace": res["trace"], "n_cases": res["n_cases"]}
+
+
+def check_C01(ctx):
+    gf = genfile_family(ctx, only="C01")
+    tr = gf["trace"]
+    cov = {
+        "traces_validated_against_impl": len(tr),
+        "evaluations": len(tr),
+        "distinct_nontrivial": _distinct(tr, lambda r: any(f["noise"] != "none" or f["refs"] for f in r["case"]["frags"]), key=lambda r: json.dumps(r["case"], sort_keys=True)),
+        "rule": "GenFile.tla enumerates every sequence of Render fragments up to the tier bound over 8 declaration kinds (func, method, var, const, type, grouped vars, free comment, "
+                "//go: directive + func) x 7 whitespace noises (leading / trailing blank lines, odd spacing with tabs, no final newline, two declarations on one line, one declaration split "
+                "over two Render calls) x 4 reference modes (none, std, std + same-named third-party package, + versioned package and the own package) in modules with go 1.24 / 1.18 / "
+                "1.21 and a dot-less module path; each case is a package of a real module, generated through gengo's pipeline by a scripted generator, and the written file is read back: "
+                "go/parser, header, package clause, declaration names in order, token-for-token equality with the rendered body, gofmt and gofumpt fixed points, import block, go build. "
+                "Plus seeded random longer sequences. Non-trivial = distinct cases with noise or references.",
+        "exhaustive": True,
+        "samples": [{"case": r["case"], "file": r["conc"].get("file", "")[:600]} for r in tr[:: max(1, len(tr) // 3)][:3]],
+        "abstract_cases": gf["n_cases"],
+    }
+    return vlib.finish(ctx, "model_checking", cov, [
+        "go/parser, go/format, mvdan.cc/gofumpt v0.8.0 (the version in gengo's go.mod) and `go build` are the oracles the statement itself names; they are not modelled",
+        "'altered only by formatting' = the file and the rendered text have the same sequence of top-level specs, each with the same token sequence (grouping of adjacent declarations, white space and semicolons ignored), and the same non-empty comment lines; fragments contain no legacy octal literals, which gofumpt rewrites",
+        "every fragment is syntactically valid Go on its own (or together with the other half of a split declaration)",
+    ], gf["fails"])
 
 
 PIPELINE_A = {"quick": ["Pipeline_sib2_quick.cfg", "Pipeline_nested2_quick.cfg", "Pipeline_root2_quick.cfg"],
@@ -498,6 +527,7 @@ def check_C20(ctx):
 
 
 CHECKS = {
+    "C01": check_C01,
     "C02": check_C02,
     "C03": check_C03,
     "C04": check_C04,
